@@ -191,6 +191,11 @@ impl<T: Qcow2IoOps> Qcow2Dev<T> {
         //
         let mut cache_vec = Vec::new();
 
+        // entries whose dirty flag is cleared below; it has to be set again
+        // if their write-back fails, otherwise a later flush_meta() reports
+        // success without ever writing them
+        let mut cleared = Vec::new();
+
         log::info!("flush caches: count {}", v.len());
 
         //discard first
@@ -204,6 +209,7 @@ impl<T: Qcow2IoOps> Qcow2Dev<T> {
                     // clearing dirty now since cache update won't happen now,
                     // and dirty is only used for flushing cache.
                     e.set_dirty(false);
+                    cleared.push(e);
 
                     match cache.get_offset() {
                         Some(cache_off) => {
@@ -252,7 +258,19 @@ impl<T: Qcow2IoOps> Qcow2Dev<T> {
             }
         }
 
-        futures::future::join_all(f_vec).await;
+        let zero_res = futures::future::join_all(f_vec).await;
+        if let Some(Err(_)) = zero_res.iter().find(|r| r.is_err()) {
+            // zeroing a new cluster failed: it stays 'new' and has to be
+            // zeroed by the next flush
+            for locked_cls in cluster_map.values_mut() {
+                **locked_cls = false;
+            }
+            for e in cleared {
+                e.set_dirty(true);
+            }
+            self.mark_need_flush(true);
+            return Err("flush_cache_entries: failed to zero new cluster".into());
+        }
 
         {
             let mut cls_map = self.new_cluster.write().await;
@@ -279,6 +297,10 @@ impl<T: Qcow2IoOps> Qcow2Dev<T> {
         for r in res {
             if r.is_err() {
                 eprintln!("cache slice write failed {r:?}\n");
+                for e in cleared {
+                    e.set_dirty(true);
+                }
+                self.mark_need_flush(true);
                 return r;
             }
         }
@@ -348,7 +370,11 @@ impl<T: Qcow2IoOps> Qcow2Dev<T> {
         while let Some(idx) = rt.pop_dirty_blk_idx(None) {
             let start = idx << self.info.block_size_shift;
             let size = 1 << self.info.block_size_shift;
-            self.flush_table(rt, start, size).await?
+            if let Err(err) = self.flush_table(rt, start, size).await {
+                // keep the block dirty for the next flush
+                rt.set_dirty((start >> 3) as usize);
+                return Err(err);
+            }
         }
 
         Ok(())
@@ -373,11 +399,20 @@ impl<T: Qcow2IoOps> Qcow2Dev<T> {
             let start = key_fn((idx as u64) << bs_bits);
             let end = key_fn(((idx + 1) as u64) << bs_bits);
 
-            if self.flush_cache(cache, start, end).await? {
-                // order cache flush and the upper layer table
-                self.call_fsync(0, usize::MAX, 0).await?;
+            let res = async {
+                if self.flush_cache(cache, start, end).await? {
+                    // order cache flush and the upper layer table
+                    self.call_fsync(0, usize::MAX, 0).await?;
+                }
+                self.flush_table(rt, idx << bs_bits, 1 << bs_bits).await
             }
-            self.flush_table(rt, idx << bs_bits, 1 << bs_bits).await?;
+            .await;
+            if res.is_err() {
+                // the block was popped from the dirty queue but not written:
+                // keep it dirty so that the next flush retries it
+                rt.set_dirty(((idx << bs_bits) >> 3) as usize);
+            }
+            res?;
             Ok(false)
         } else {
             // flush cache without holding top table read lock
